@@ -22,7 +22,7 @@ ASSUMPTIONS = GEO_ASSUMPTIONS + [
 
 
 def budget(tier):
-    return {"cases": 5000 if tier == "quick" else 150000, "wall": 600 if tier == "quick" else 3300,
+    return {"cases": 5000 if tier == "quick" else 150000, "wall": 600 if tier == "quick" else 3000,
             "shrink": 80, "det_legs": 6}
 
 
